@@ -201,8 +201,9 @@ impl GLWE<Vec<u8>> {
 impl<D: DataMut> ReaderFrom for GLWE<D> {
     /// Deserialises a [`GLWE`] in little-endian binary format.
     fn read_from<R: std::io::Read>(&mut self, reader: &mut R) -> std::io::Result<()> {
-        self.base2k = Base2K(reader.read_u32::<LittleEndian>()?);
+        let base2k = Base2K(reader.read_u32::<LittleEndian>()?);
         self.data.read_from(reader)?;
+        self.base2k = base2k;
         Ok(())
     }
 }
